@@ -7,7 +7,7 @@ from specs import sched_env, n_cases
 def gen_mpmc(rng, tier):
     cases = []
     quick = tier != "thorough"
-    for i in range(n_cases(tier, 450, 6000)):
+    for i in range(n_cases(tier, 1200, 8000)):
         pool = rng.choice([3, 3, 4, 4, 5] if not quick else [3, 3, 4])
         # explicit hazard_pointer_scan after every k-th successful pop (legal API use;
         # retire_threshold itself cannot be lowered without editing the code)
